@@ -20,6 +20,8 @@ Value(s) == IF Len(s) = 0 THEN 0 ELSE 10 * Value(SubSeq(s, 1, Len(s) - 1)) + Dig
 \* outcome for a lone, otherwise well-formed stanza
 Gate(s, max) == IF ~Canonical(s) THEN [derive |-> FALSE, logN |-> 0, why |-> "encoding"]
                 ELSE IF Len(s) > 18 THEN [derive |-> FALSE, logN |-> 0, why |-> "overflow"]
+                \* (a canonical decimal of ten or more digits exceeds every maximum; TLC's integers are 32 bit)
+                ELSE IF Len(s) > 9 THEN [derive |-> FALSE, logN |-> 0, why |-> "too-large"]
                 ELSE IF Value(s) > max THEN [derive |-> FALSE, logN |-> 0, why |-> "too-large"]
                 ELSE [derive |-> TRUE, logN |-> Value(s), why |-> ""]
 
